@@ -463,7 +463,7 @@ theorem end_to_end_pulses_partial (circular pre : Bool) (N : ℕ) (ρ : ℕ → 
     hvalid (pulseDisjoint_of_gateDisjoint circular N isQ _ hq hdisj)
   refine ⟨chans, hc, ?_⟩
   intro hsep
-  obtain ⟨T, rows, hfull, heq⟩ := hprod hsep
+  obtain ⟨T, rows, hfull, heq, _⟩ := hprod hsep
   refine ⟨T, rows, hfull, ?_⟩
   rw [heq]
   obtain ⟨hσ, _, hsorted⟩ := schedule_pairs enc isQ sch cis st (fun i hi => (hpos i hi).le) hs
@@ -536,6 +536,12 @@ succeeds is proved (`groupPulses_some`).  What the theorem still quantifies over
 schedule mode: the rational list `isQ` with `is = isQ.map castI` (exact arithmetic), the label numbering `enc`, and the
 answer `perm` of `np.argsort` (any permutation `_schedule` accepts).
 
+The last clause repeats the statement for the channel list of the WHOLE processor: `all` lists the labels of all its
+controls (`sx_k`, `sz_k`, `g_k` in the order of the processor's pulse list — any list of distinct numbers containing the
+labels in use), a control that received no pulse enters `get_full_coeffs` as `Chan.absent` and gets a row of zeros
+(`fullCoeffsVW_mixed`), the merged grid `T` is the same and the product over all controls is the same unitary
+(`channels_sliceProd_all`).
+
 Remaining named hypotheses, each with the reason it cannot be dropped:
 * `hpulse` — some instruction carries a pulse (a circuit of IDLE / GLOBALPHASE gates only has no control channel: C14's
   model of `get_full_coeffs` then raises, `C12.idle_only_counterexample`; the implementation returns the identity by a
@@ -569,7 +575,14 @@ theorem end_to_end_pulses_scheduled_partial (circular pre : Bool) (N : ℕ) (ρ 
           (Grid.SepAll tol (chans.map (·.1)) → ∃ (T : List Rat) (rows : List (List Rat)),
             (∀ zl w : Bool, Grid.fullCoeffsVW zl w tol (chans.map fun c => Grid.Chan.arr c.1 c.2) = .ok (T, rows)) ∧
             GateC.phase (reportedPhase old φ) • Grid.ordProdL (Grid.runAnalytically 0
-              ((groups.map (·.1)).map (labelHam circular N enc)) (Grid.slices T rows)) = U) := by
+              ((groups.map (·.1)).map (labelHam circular N enc)) (Grid.slices T rows)) = U ∧
+            -- … and with EVERY control of the processor in the channel list (`all`: the labels of all controls; a control
+            -- that received no pulse is `Chan.absent`, a row of zeros), same merged grid
+            ∀ (all : List ℕ), all.Nodup → (∀ g ∈ groups, g.1 ∈ all) → ∃ rows' : List (List Rat),
+              (∀ zl w : Bool, Grid.fullCoeffsVW zl w tol
+                (all.map fun l => optChan (((groups.map (·.1)).zip chans).lookup l)) = .ok (T, rows')) ∧
+              GateC.phase (reportedPhase old φ) • Grid.ordProdL (Grid.runAnalytically 0
+                (all.map (labelHam circular N enc)) (Grid.slices T rows')) = U) := by
   obtain ⟨is, φ, ws, h1, h2, _, h4, _, h6⟩ :=
     end_to_end_exp_partial circular pre N ρ P hP hroute gs out hg hph h2q ht U hU phase0 old
   refine ⟨is, φ, h1, h4, ?_⟩
@@ -583,9 +596,13 @@ theorem end_to_end_pulses_scheduled_partial (circular pre : Bool) (N : ℕ) (ρ 
     (chanOK_of_cast circular N isQ ws h2 hq) mode st0 hst perm cis st hs hpulse hgap
   refine ⟨groups, chans, hgr, hc, ?_⟩
   intro hsep
-  obtain ⟨T, rows, hfull, heq⟩ := hprod hsep
-  refine ⟨T, rows, hfull, ?_⟩
-  rw [heq]
+  obtain ⟨T, rows, hfull, heq, hallc⟩ := hprod hsep
+  suffices key : GateC.phase (reportedPhase old φ) •
+      ordProd ((schedOrder isQ.length (schOf mode st0 perm)).map fun k => ws.getD k 1) = U by
+    refine ⟨T, rows, hfull, by rw [heq]; exact key, ?_⟩
+    intro all hall hsub
+    obtain ⟨rows', hf', he'⟩ := hallc all hall hsub
+    exact ⟨rows', hf', by rw [he']; exact key⟩
   obtain ⟨hσ, _, hsorted⟩ := schedule_pairs enc isQ _ cis st (fun i hi => (hpos i hi).le) hs
   rw [schedStarts_schOf enc mode isQ st0 perm hst] at hsorted
   apply h6 (fun k => ((st0.getD k 0 : ℚ) : ℝ)) _ _ _ (by rw [List.length_map]; exact hσ)
@@ -682,7 +699,14 @@ theorem end_to_end_pulses_model_partial (circular pre : Bool) (N : ℕ) (r : ℕ
           (Grid.SepAll tol (chans.map (·.1)) → ∃ (T : List Rat) (rows : List (List Rat)),
             (∀ zl w : Bool, Grid.fullCoeffsVW zl w tol (chans.map fun c => Grid.Chan.arr c.1 c.2) = .ok (T, rows)) ∧
             GateC.phase (reportedPhase old (Real.pi * ((φQ : ℚ) : ℝ))) • Grid.ordProdL (Grid.runAnalytically 0
-              ((groups.map (·.1)).map (labelHam circular N enc)) (Grid.slices T rows)) = U) := by
+              ((groups.map (·.1)).map (labelHam circular N enc)) (Grid.slices T rows)) = U ∧
+            -- … and with EVERY control of the processor in the channel list (`all`: the labels of all controls; a control
+            -- that received no pulse is `Chan.absent`, a row of zeros), same merged grid
+            ∀ (all : List ℕ), all.Nodup → (∀ g ∈ groups, g.1 ∈ all) → ∃ rows' : List (List Rat),
+              (∀ zl w : Bool, Grid.fullCoeffsVW zl w tol
+                (all.map fun l => optChan (((groups.map (·.1)).zip chans).lookup l)) = .ok (T, rows')) ∧
+              GateC.phase (reportedPhase old (Real.pi * ((φQ : ℚ) : ℝ))) • Grid.ordProdL (Grid.runAnalytically 0
+                (all.map (labelHam circular N enc)) (Grid.slices T rows')) = U) := by
   set ρ : ℕ → ℝ := fun j => Real.pi * ((r j : ℚ) : ℝ) with hρ
   obtain ⟨is, φ, h1, h4, H⟩ := end_to_end_pulses_scheduled_partial circular pre N ρ (castP Pq) hP hroute gs out hg hph
     h2q ht U hU 0 old
